@@ -1323,7 +1323,15 @@ def accepts_seats(evaluator: Evaluator) -> bool:
 
 def accepts_prev_gains(evaluator: Evaluator) -> bool:
     """Whether evaluator takes previous gains as an argument to evaluate()."""
-    return 'prev_gains' in inspect.signature(evaluator.evaluate).parameters
+    params = inspect.signature(evaluator.evaluate).parameters
+    if 'prev_gains' in params:
+        return True
+    elif _has_generic(params):
+        # a wrapper passing its arguments through: ask the wrapped evaluator
+        for attr in ('evaluator', 'main'):
+            if hasattr(evaluator, attr):
+                return accepts_prev_gains(getattr(evaluator, attr))
+    return False
 
 
 def _has_generic(params: Dict[str, inspect.Parameter]) -> bool:
